@@ -11,7 +11,7 @@ RUN: harness/c08.cpp - one real transformation per (tree, vector): a generated s
 TV : Trace_C08.tla - first event of an execution = reference vector, every other event must satisfy SameContent /
      HtmlSame / the text rule of OutputOptions.tla.  TLC decides; a reject is attributed to a known finding only if
      undoing exactly that deviation makes TLC accept the event."""
-import copy, html, json, os, random, subprocess, itertools
+import copy, html, json, os, random, re, subprocess, itertools, time
 from concurrent.futures import ThreadPoolExecutor, ProcessPoolExecutor
 import vlib, tlaparse, c08lib
 from vlib import ROOT
@@ -159,20 +159,24 @@ def _unrep(s, enc):
     return [c for c in s if c > lim]
 
 
-def _cdata_tail_unrep(ref, names, lim):
-    """does a cdata-section element hold a text child whose last character (line feeds aside) the encoding cannot represent"""
-    for n in ref:
+def _cdata_tail_unrep(tree, names, lim):
+    """python (unmerged) tree: does a cdata-section element hold a text instruction whose last character (line feeds aside)
+    the encoding cannot represent"""
+    for n in tree:
         if n["k"] != "elem":
             continue
-        if "".join(map(chr, n["name"])) in names:
+        if n["name"] in names:
             for k in n["kids"]:
-                if k["k"] == "text":
-                    v = [c for c in k["v"] if c != 10]
-                    if v and v[-1] > lim:
+                if k["k"] == "text" and not k.get("doe"):
+                    v = k["v"].rstrip("\n")
+                    if v and ord(v[-1]) > lim:
                         return True
         if _cdata_tail_unrep(n["kids"], names, lim):
             return True
     return False
+
+
+_LEFT_OPEN = re.compile(rb"(&#\d+;<!\[CDATA\[)(?=[\n ]*(?:</|<!--|<\?|<!\[CDATA\[|<[A-Za-z]))")
 
 
 def _tab_in_cdata_comment_pi(ns, names, incdata):
@@ -219,9 +223,9 @@ def repair(ev, ref, tree, data):
             ev2["status"] = -1; ev2["text"] = []; keys.append("textUnrepresentableSubstituted")      # "had an error been signalled"
         return ev2, keys
     used = set()
-    if m == "xml" and ev["status"] == 0 and o["cdata"] and lim < 0x10FFFF and _cdata_tail_unrep(ref, o["cdata"], lim) and b"<![CDATA[</" in data:
+    if m == "xml" and ev["status"] == 0 and o["cdata"] and lim < 0x10FFFF and _cdata_tail_unrep(tree, o["cdata"], lim) and _LEFT_OPEN.search(data):
         # the section re-opened after the character reference is never closed: put the missing "]]>" in and read the document again
-        r = c08lib.parse_xml(data.replace(b"<![CDATA[</", b"<![CDATA[]]></"), None if data[:5] == b"<?xml" else enc)
+        r = c08lib.parse_xml(_LEFT_OPEN.sub(rb"\1]]>", data), None if data[:5] == b"<?xml" else enc)
         if "error" not in r:
             ev2["perr"] = ""; ev2["tree"], ev2["decl"], ev2["doctype"] = c08lib.canon(r["tree"]), r["decl"], r["doctype"]
             used.add("cdataSectionLeftOpen")
@@ -282,6 +286,85 @@ def _has_doe(tree, v):
     return w(tree)
 
 
+def process_batch(res, exe, wd, batch, known, tot, nt):
+    """one batch of executions: transform, read back, validate, attribute rejects"""
+    os.makedirs(wd, exist_ok=True)
+    t0 = time.time()
+    cases, meta = [], []                                    # meta[id] = (exec index, opts, isref)
+    trees, big = {}, {}
+    for xi, (kind, t, vs) in batch:
+        trees[xi] = t; big[xi] = len(c08lib._body(t)) > 100
+        for isref, o in [(True, REF)] + [(False, v) for v in vs]:
+            cid = len(cases)
+            cases.append(c08lib.harness_case(cid, t, o)); meta.append((xi, o, isref))
+
+    def describe(cid):
+        xi, o, isref = meta[cid]
+        return {"e": "Case", "opts": o, "tree": trees[xi], "xsl": cases[cid]["xsl"]}
+    dones = run_harness(exe, wd, cases, res, describe)
+    tot["cases"] += len(dones)
+    t1 = time.time()
+    # ---- read the bytes back
+    ids = [c for c in range(len(cases)) if c in dones]
+    jobs = [(meta[c][1], trees[meta[c][0]], dones[c], meta[c][2], meta[c][0]) for c in ids]
+    if len(jobs) > 4000:
+        with ProcessPoolExecutor(max_workers=min(8, vlib.NCPU)) as pp:
+            obs = list(pp.map(observe, jobs, chunksize=500))
+    else:
+        obs = [observe(j) for j in jobs]
+    events, evcase, last = [], [], None
+    for cid, ev in zip(ids, obs):
+        xi, o, isref = meta[cid]
+        if isref:
+            events.append({"e": "Reset", "treeId": xi}); evcase.append(None); last = xi
+        elif last != xi:
+            continue                                        # the reference run of this execution is missing (process died): already reported
+        events.append(ev); evcase.append(cid)
+        if not isref and big[xi] and (o["indent"] == "yes" or o["setIndent"] >= 0 or o["indentAmount"] >= 0 or o["method"] in ("html", "text", "none")
+                                                         or eff_encoding(o) != "UTF-8" or o["cdata"]):
+            nt.add(vlib.canon_hash([cases[cid]["xsl"], o]))
+    t2 = time.time()
+    # ---- TV
+    nsh = max(1, min(vlib.NCPU, len(events) // 3000))
+    rejects, st = vlib.tlc_validate_sharded(TRACE, events, shards=nsh, tag="c08tv", timeout=3000, xmx="3g")
+    tot["tv_states"] += st["tv_states"]
+    tot["out"] += sum(1 for e in events if e["e"] == "Out")
+    tot["rejects"] += len(rejects)
+    refs = {e["treeId"]: e for e in events if e["e"] == "Out" and e["want"]}
+    bytree = {}
+    for rj in rejects:
+        ev = events[rj["line"]]
+        cid = evcase[rj["line"]]
+        xi, o, isref = meta[cid]
+        if isref or xi not in refs:
+            res.violation(rj["msg"][:300], [events[rj["line"] - 1], dict(ev, xsl=cases[cid]["xsl"], hex=dones[cid]["hex"])])
+            continue
+        ev2, keys = repair(ev, refs[xi]["tree"], trees[xi], bytes.fromhex(dones[cid]["hex"]))
+        bytree.setdefault(xi, []).append((rj, ev, cid, keys, ev2))
+    # second look: per tree one execution [Reset, reference, repaired events...] (every event is judged on its own, Step.cont)
+    second, pos = [], {}
+    for xi, lst in bytree.items():
+        second += [{"e": "Reset", "treeId": xi}, refs[xi]]
+        for k, item in enumerate(lst):
+            pos[(xi, k)] = len(second); second.append(item[4])
+    if second:
+        rej2, _ = vlib.tlc_validate_sharded(TRACE, second, shards=max(1, min(vlib.NCPU, len(second) // 3000)), tag="c08tv2", timeout=3000, xmx="3g")
+        still = {r["line"] for r in rej2}
+        for xi, lst in bytree.items():
+            for k, (rj, ev, cid, keys, ev2) in enumerate(lst):
+                if keys and pos[(xi, k)] not in still and all(key in known for key in keys):
+                    for key in keys:
+                        res.known(known[key])
+                else:
+                    res.violation("%s | opts %s" % (rj["msg"][:260], json.dumps({f: v for f, v in ev["opts"].items() if REF[f] != v})),
+                                  [{"e": "Reset", "treeId": xi}, refs[xi], dict(ev, xsl=cases[cid]["xsl"], hex=dones[cid]["hex"], attributed=keys)])
+    vlib.log("c08: batch of %d transformations: run %.0fs, read back %.0fs, validation %.0fs (%d rejects looked at twice)" % (
+        len(cases), t1 - t0, t2 - t1, time.time() - t2, len(rejects)))
+    if not os.environ.get("VERIF_KEEP"):
+        import shutil
+        shutil.rmtree(wd, ignore_errors=True)
+
+
 # ------------------------------------------------------------------------------------------------- run
 def run(res, tier, seed):
     quick = tier == "quick"
@@ -300,7 +383,13 @@ def run(res, tier, seed):
     res.notes["indent_transitions_exported"] = nhist
     res.notes["indent_shapes"] = len(shapes)
     # ---- option vectors per tree class
-    cover = pairwise(vectors, rng) if quick else vectors
+    if quick:
+        cover = pairwise(vectors, rng)
+        res.notes["pairwise_cover"] = len(cover)
+        rest = [o for o in vectors if o not in cover]
+        cover = cover + rng.sample(rest, max(0, 60 - len(cover)))           # the cover, topped up to 60 vectors by seeded sampling
+    else:
+        cover = vectors
     res.notes["vectors_used"] = len(cover)
     shape_vecs = [o for o in vectors if o["method"] == "xml" and o["encoding"] == "absent" and o["setEncoding"] == "" and o["omitDecl"] == "absent"
                   and o["standalone"] == "absent" and o["version"] == "absent" and o["doctype"] in (("none",) if quick else ("none", "system"))]
@@ -317,85 +406,26 @@ def run(res, tier, seed):
     for kind, t in trees:
         for c in range(0, len(cover), 120):
             execs.append((kind, t, cover[c:c + 120]))
-    cases, meta = [], []                                    # meta[id] = (exec index, opts, isref)
-    for xi, (kind, t, vs) in enumerate(execs):
-        for isref, o in [(True, REF)] + [(False, v) for v in vs]:
-            cid = len(cases)
-            cases.append(c08lib.harness_case(cid, t, o)); meta.append((xi, o, isref))
-
-    def describe(cid):
-        xi, o, isref = meta[cid]
-        return {"e": "Case", "opts": o, "tree": execs[xi][1], "xsl": cases[cid]["xsl"]}
     exe = vlib.build_harness("c08")
-    dones = run_harness(exe, wd, cases, res, describe)
-    res.cov["evaluations"] = len(dones)
-    # ---- read the bytes back
-    jobs = [(meta[c][1], execs[meta[c][0]][1], dones[c], meta[c][2], meta[c][0]) for c in range(len(cases)) if c in dones]
-    ids = [c for c in range(len(cases)) if c in dones]
-    if len(jobs) > 4000:
-        with ProcessPoolExecutor(max_workers=min(8, vlib.NCPU)) as pp:
-            obs = list(pp.map(observe, jobs, chunksize=500))
-    else:
-        obs = [observe(j) for j in jobs]
-    events, evcase, last = [], [], None
-    for cid, ev in zip(ids, obs):
-        xi, o, isref = meta[cid]
-        if isref:
-            events.append({"e": "Reset", "treeId": xi}); evcase.append(None); last = xi
-        elif last != xi:
-            continue                                        # the reference run of this execution is missing (process died): already reported
-        events.append(ev); evcase.append(cid)
-    # ---- TV
-    rejects, st = vlib.tlc_validate_sharded(TRACE, events, tag="c08tv", timeout=3000, xmx="3g")
-    res.notes["tv_states"] = st["tv_states"]
     known = {k["key"]: k for k in vlib.known_findings(PROP)}
-    refs = {}
-    for ev in events:
-        if ev["e"] == "Out" and ev["want"]:
-            refs[ev["treeId"]] = ev["tree"]
-    refevs = {e["treeId"]: e for e in events if e["e"] == "Out" and e["want"]}
-    second, pending = [], []
-    bad = 0
-    for rj in rejects:
-        ev = events[rj["line"]]
-        cid = evcase[rj["line"]]
-        xi, o, isref = meta[cid]
-        if isref or xi not in refs:
-            res.violation(rj["msg"][:300], [events[rj["line"] - 1], dict(ev, xsl=cases[cid]["xsl"], hex=dones[cid]["hex"])]); bad += 1
-            continue
-        ev2, keys = repair(ev, refs[xi], execs[xi][1], bytes.fromhex(dones[cid]["hex"]))
-        pending.append((rj, ev, cid, keys))
-        refev = refevs[xi]
-        second += [{"e": "Reset", "treeId": xi}, refev, ev2]
-    if second:
-        rej2, _ = vlib.tlc_validate_sharded(TRACE, second, tag="c08tv2", timeout=3000, xmx="3g")
-        still = {r["line"] for r in rej2}
-        for k, (rj, ev, cid, keys) in enumerate(pending):
-            xi = meta[cid][0]
-            if keys and (3 * k + 2) not in still and all(key in known for key in keys):
-                for key in keys:
-                    res.known(known[key])
-            else:
-                bad += 1
-                refev = second[3 * k + 1]
-                res.violation("%s | opts %s" % (rj["msg"][:260], json.dumps({f: v for f, v in ev["opts"].items() if REF[f] != v})),
-                              [{"e": "Reset", "treeId": xi}, refev, dict(ev, xsl=cases[cid]["xsl"], hex=dones[cid]["hex"], attributed=keys)])
-    nout = sum(1 for e in events if e["e"] == "Out")
-    res.cov["traces_validated_against_impl"] = nout - len(rejects)
+    tot = {"cases": 0, "out": 0, "rejects": 0, "tv_states": 0}
+    nt = set()
+    vlib.log("c08: %d shapes x %d vectors, %d trees x %d vectors" % (len(shapes), len(shape_vecs), len(trees), len(cover)))
+    batch, size, bi = [], 0, 0
+    for xi, ex in enumerate(execs):
+        batch.append((xi, ex)); size += 1 + len(ex[2])
+        if size >= 24000 or xi == len(execs) - 1:
+            process_batch(res, exe, os.path.join(wd, "b%d" % bi), batch, known, tot, nt)
+            batch, size, bi = [], 0, bi + 1
+    res.cov["evaluations"] = tot["cases"]
+    res.notes["tv_states"] = tot["tv_states"]
+    res.cov["traces_validated_against_impl"] = tot["out"] - tot["rejects"]
     # ---- the exhaustive model
     rmc = mcfut.result()
     res.add_mc(rmc, "MC_Indent/Spec (every event sequence of length <= %d, nesting <= 3: DummyExact, IndentConforms, NoWsNextToText, PreservesDead, KDsAreReal)" % mh)
     res.add_mc(rgen, "MC_Indent/GenSpec (one shortest sequence per transition, VIEW)")
-    # non-trivial: a non-reference vector that switches on something that can touch the content (indentation, a non-UTF-8 encoding,
-    # html/text method, cdata sections, doctype) on a tree with mixed content or characters needing care
-    nt = set()
-    for cid in ids:
-        xi, o, isref = meta[cid]
-        if isref:
-            continue
-        t = execs[xi][1]
-        if len(json.dumps(t)) > 120 and (o["indent"] == "yes" or o["setIndent"] >= 0 or o["method"] in ("html", "text", "none") or eff_encoding(o) != "UTF-8" or o["cdata"]):
-            nt.add(vlib.canon_hash([xi, o]))
+    # non-trivial (counted in process_batch): a non-reference vector that switches on something that can touch the content
+    # (indentation, a non-UTF-8 encoding, html/text method, cdata sections) on a tree that is not tiny
     res.cov["distinct_nontrivial"] = len(nt)
     res.cov["rule"] = ("result trees = %d mixed-content shapes (one shortest event sequence per transition of the MC_Indent graph, %d transitions, open elements closed, "
                        "duplicates dropped) x the %d xml indentation/cdata vectors, + %d seeded random trees (%d XML-ish: mixed content, whitespace-only text, comments, PIs, "
@@ -403,7 +433,7 @@ def run(res, tier, seed):
                        "URL attributes) x %s of OutputOptions!OptionProduct (%d vectors, enumerated by TLC); every (tree, vector) is one real transformation whose xsl:output is "
                        "rendered from the vector; non-trivial = the vector turns on indentation, a non-UTF-8 encoding, cdata sections or the html/text method and the tree is "
                        "not tiny; distinct by (tree, vector)" % (len(shapes), nhist, len(shape_vecs), len(trees), ntrees - nhtml, nhtml,
-                                                                 "a pairwise cover (%d vectors)" % len(cover) if quick else "ALL vectors", len(vectors)))
+                                                                 "%d vectors (a pairwise cover of %d + seeded sample)" % (len(cover), res.notes["pairwise_cover"]) if quick else "ALL vectors", len(vectors)))
     for kind, t, vs in (execs[0], execs[len(shapes)], execs[-1]):
         res.sample({"tree": c08lib.show(t), "first_vector": vs[0] if vs else None})
     res.assumptions += [
